@@ -2,8 +2,10 @@ package checks
 
 import (
 	"context"
+	"encoding/json"
 	"fmt"
 	"go.mongodb.org/mongo-driver/mongo/options"
+	"os"
 	"strings"
 	"sync/atomic"
 
@@ -488,6 +490,52 @@ func init() {
 			depth = 5
 		}
 		st := &c03Stats{}
+		// --replay: the one recorded action sequence (names from a violation of the model, "action N" from the
+		// watchdog of the explorer), on the plain and on the aged database
+		if c.Replay != "" {
+			var f struct {
+				Replay struct {
+					Actions []string `json:"actions"`
+					Calls   []string `json:"calls"`
+				} `json:"replay"`
+			}
+			if b, err := os.ReadFile(c.Replay); err == nil {
+				_ = json.Unmarshal(b, &f)
+			}
+			names := f.Replay.Actions
+			if len(names) == 0 {
+				names = f.Replay.Calls
+			}
+			var seq []int
+			for _, n := range names {
+				idx := -1
+				for k, a := range c03Actions {
+					if a == n || fmt.Sprintf("action %d", k) == n {
+						idx = k
+					}
+				}
+				if idx < 0 {
+					r.Broken("replay: unknown action %q", n)
+					return
+				}
+				seq = append(seq, idx)
+			}
+			for _, aged := range []bool{false, true} {
+				c03Aged = aged
+				if aged {
+					c03Coll = "k3"
+				}
+				run := newC03Runner(c, st)
+				for _, a := range seq {
+					run.Step(a)
+				}
+				run.Done()
+			}
+			c03Aged, c03Coll = false, "c"
+			r.Set("replayed_actions", int64(len(seq)))
+			r.Set("exhaustive", false)
+			return
+		}
 		ps := e1.Paths(len(c03Actions), depth, func() e1.Runner {
 			run := newC03Runner(c, st)
 			return run
